@@ -127,6 +127,7 @@ def run(ctx, rep):
             final_len = len(trials[-1]) if trials else 0
             lines.append(f"localopt ; {1 if needs_before else 0} {L} {len(consts_before)} ; {ntr} ; {calls['jac']} ; {final_len if needs_before and L > 0 else 0}")
             meta.append((case, (0, len(ag.constants), calls["n"])))
+    sequences(ctx, rep)
     if ctx.driver_ok:
         outs = run_driver(lines)
         rep.corr_cases = len(lines)
@@ -135,6 +136,54 @@ def run(ctx, rep):
             if t[0] != "ok" or int(t[1]) != no or int(t[2]) != cl or int(t[3]) != nc:
                 rep.disagree(f"model (needsOpt, #consts, base calls) = {t[1:4]} vs code {(no, cl, nc)}", {"line": line, **case})
     refit(ctx, rep)
+
+
+def sequences(ctx, rep):
+    """evaluate through the wrapper, change the command array (more / fewer constants), evaluate again: all four clauses after every step"""
+    rng = ctx.rng
+    for t in range(ctx.n(120, 1500)):
+        x, y, genome = make_case(rng)
+        metric = rng.choice(["mae", "mse", "rmse"])
+        method = rng.choice(["lm", "BFGS", "Nelder-Mead"])
+        base = ExplicitRegression(ExplicitTrainingData(x, y), metric=metric)
+        lo = LocalOptFitnessFunction(base, ScipyOptimizer(base, method=method))
+        ag = AGraph(use_simplification=rng.random() < 0.3)
+        ag.command_array = np.array(genome, dtype=int).reshape(-1, 3)
+        history = [genome]
+        np.random.seed(rng.randrange(2 ** 31))
+        for step in range(rng.randrange(2, 5)):
+            case = {"history": history, "x": x.tolist(), "y": y.ravel().tolist(), "method": method, "metric": metric}
+            try:
+                with warnings.catch_warnings():
+                    warnings.simplefilter("ignore")
+                    with np.errstate(all="ignore"):
+                        v = lo(ag)
+                        want = ExplicitRegression(ExplicitTrainingData(x, y), metric=metric)(ag.copy())
+            except Exception as exc:
+                rep.violate(f"locally-optimizing fitness raised {type(exc).__name__}: {exc}", "C06:raised", case)
+                break
+            rep.case(("seq", str(history), x.tobytes(), method, metric), True)
+            rep.count("sequence_steps")
+            fresh = AGraph(use_simplification=ag._use_simplification)
+            fresh.command_array = np.array(ag.command_array, copy=True)
+            n_expr = fresh.get_number_local_optimization_params()
+            if not same(float(v), float(want)):
+                rep.violate(f"step {step}: returned fitness {v!r} is not the base fitness {want!r} of the individual afterwards", "C06:reported-not-base", case)
+            if ag.needs_local_optimization():
+                rep.violate(f"step {step}: still requests optimization", "C06:still-needs-opt", case)
+            if len(ag.constants) != n_expr or ag.get_number_local_optimization_params() != n_expr:
+                rep.violate(f"step {step}: {len(ag.constants)} stored constants / {ag.get_number_local_optimization_params()} reported parameters, "
+                            f"but the expression has {n_expr} constants", "C06:param-count", case)
+                break
+            # mutate: replace a row so that the number of utilized constants changes
+            st = [list(r) for r in ag.command_array.tolist()]
+            i = rng.randrange(len(st))
+            if rng.random() < 0.5 and i > 0:
+                st[i] = [rng.choice([G.ADD, G.MUL, G.SUB]), rng.randrange(i), rng.randrange(i)]
+            else:
+                st[i] = rng.choice([[G.VARIABLE, 0, 0], [G.CONSTANT, -1, -1], [G.INTEGER, 3, 3]])
+            ag.command_array = np.array(st, dtype=int).reshape(-1, 3)
+            history = history + [st]
 
 
 def refit(ctx, rep):
@@ -176,6 +225,18 @@ def refit(ctx, rep):
             continue
         rep.case(("refit", str(genome), x.tobytes(), algo, metric), True)
         rep.count("refit_algo", algo)
+        # fitting again an equation that is already fitted must not end worse than the constants it already holds
+        before_second = float(ag.fitness)
+        try:
+            with warnings.catch_warnings():
+                warnings.simplefilter("ignore")
+                with np.errstate(all="ignore"):
+                    reg.fit(x, y)
+            after_second = float(ag.fitness)
+            if before_second < after_second:
+                rep.violate(f"a second fit() made the equation worse: fitness {before_second} -> {after_second}", "C06:refit-worse", case)
+        except Exception as exc:
+            rep.violate(f"second EquationRegressor.fit raised {type(exc).__name__}: {exc}", "C06:refit-raised", case)
         final = float(ag.fitness)
         if firsts and firsts[0] < final:
             rep.violate(f"re-fitting ended with fitness {final} worse than the first fit {firsts[0]}", "C06:refit-worse", case)
